@@ -503,6 +503,11 @@ func (s *state) renameUser(from, to string) {
 		return
 	}
 
+	// If another user is known under the new nickname, they are gone.
+	if ToRFC1459(to) != from {
+		s.deleteUser("", to)
+	}
+
 	delete(s.users, from)
 
 	user.Nick = to
